@@ -27,14 +27,14 @@ def gen(x):
     w.append("def mdsdrv_pitch_loop_max : Nat := %s  -- mdsdrv.cpp if(loop_pos > 255)" % ms[0][0])
     w.append("def mdsdrv_msg_pitch_loop : String × String := (%s, %s)  -- around %%d = id" % (lean_str(ms[0][1]), lean_str(ms[0][2])))
     # add_ins_psg: the loop position must fit its byte; the check sits in the loop branch of the end command, in front of the
-    # two push_backs (ba9074f)
+    # two push_backs (ff36345)
     m = x.need(re.search(r'if\(loop_pos == -1\)\s*\{\s*env_data\.push_back\(0x00\);\s*\}\s*else\s*\{\s*' + loop_check +
                          r'\s*env_data\.push_back\(0x02\);\s*env_data\.push_back\(loop_pos\);', c),
                "mdsdrv.cpp:add_ins_psg loop position check")
     w.append("def mdsdrv_psg_loop_max : Nat := %s  -- mdsdrv.cpp add_ins_psg if(loop_pos > 255)" % m.group(1))
     w.append("def mdsdrv_msg_psg_loop : String × String := (%s, %s)  -- around %%d = id" % (lean_str(m.group(2)), lean_str(m.group(3))))
     # add_pitch_node: the step per frame must fit int16_t; the check sits between the computation of env_initial and the
-    # narrowing of the step (87e2b57), i.e. before the invalid_argument test and before any push_back of the iteration
+    # narrowing of the step (f788cbf), i.e. before the invalid_argument test and before any push_back of the iteration
     m = x.need(re.search(r'int16_t env_initial = counter \* 256;\s*double step = std::trunc\(delta \* 256\);\s*'
                          r'if\(!\(step >= (-?\d+) && step <= (\d+)\)\)\s*throw InputError\(nullptr, "([^"]*)"\);\s*int16_t env_delta = step;', c),
                "mdsdrv.cpp:add_pitch_node step range check")
